@@ -295,6 +295,32 @@ impl Sut {
         Ok(())
     }
 
+    /// Wait until no flush request is queued and no worker is handling one (observed
+    /// twice, 300 us apart, with unchanged counters). False on timeout.
+    pub fn quiesce(&self, timeout_ms: u64) -> bool {
+        let start = std::time::Instant::now();
+        let snap = |s: &Sut| {
+            (
+                s.sess.worker_begin.load(Ordering::SeqCst),
+                s.sess.worker_done.load(Ordering::SeqCst),
+                s.store().verif_requests_queued(),
+            )
+        };
+        loop {
+            let a = snap(self);
+            if a.0 == a.1 && a.2 == 0 {
+                std::thread::sleep(std::time::Duration::from_micros(300));
+                if snap(self) == a {
+                    return true;
+                }
+            }
+            if start.elapsed().as_millis() as u64 > timeout_ms {
+                return false;
+            }
+            std::thread::sleep(std::time::Duration::from_micros(100));
+        }
+    }
+
     pub fn now(&self) -> u64 {
         self.sess.clock.load(Ordering::SeqCst)
     }
